@@ -8,7 +8,7 @@ oracle:      identity vs deep structure over pools of live ASTs: same tree built
              objects never share a deep structural key; an annotation requested is the annotation carried (==), also for
              annotation objects with colliding hashes (built-in classes and a user class)
 """
-import collections, gc, os, pickle, subprocess, sys
+import collections, gc, math, os, pickle, struct, subprocess, sys
 
 import claripy
 from claripy.ast.base import Base
@@ -18,7 +18,7 @@ from lib import exprs as E, exprgen as G, exprcheck as X
 THEOREMS = ["Claripy.Props.C06.C06_int_roundtrip", "Claripy.Props.C06.C06_intBytes_injective",
             "Claripy.Props.C06.C06_pyhash_collision_neg1_neg2", "Claripy.Props.C06.C06_pyhash_collision_modulus",
             "Claripy.Props.C06.C06_table_key", "Claripy.Props.C06.C06_never_merges", "Claripy.Props.C06.C06_same_object",
-            "Claripy.Props.C06.C06_collision_merges", "Claripy.Props.C06.run_keyOK"]
+            "Claripy.Props.C06.C06_collision_merges", "Claripy.Props.C06.run_keyOK", "Claripy.Props.C06.C06_floatBytes_injective"]
 
 M61 = (1 << 61) - 1
 
@@ -45,6 +45,8 @@ def skey(a, memo):
             parts.append(skey(x, memo))
         elif isinstance(x, float):
             parts.append(("f", repr(x)))
+        elif isinstance(x, int) and not isinstance(x, bool):
+            parts.append(("l", "int", hex(x)))
         else:
             parts.append(("l", type(x).__name__, repr(x)))
     # annotations in ORDER: the tuple is applied in sequence by backends, x.annotate(a, b) is not x.annotate(b, a)
@@ -65,9 +67,15 @@ def ser_request(a):
         elif x is False:
             args.append("F")
         elif isinstance(x, int):
+            if x.bit_length() > 8000:
+                return None
             args.append("i:%d" % x)
         elif isinstance(x, str):
             args.append("s:" + x.encode("utf-8", "surrogatepass").hex())
+        elif isinstance(x, float):
+            args.append("f:%d" % struct.unpack("<Q", struct.pack("<d", x))[0])
+        elif isinstance(x, claripy.fp.FSort | claripy.fp.RM):
+            args.append("h:%d" % hash(x))
         else:
             return None
     if any(" " in a.op for _ in [0]):
@@ -146,6 +154,79 @@ def run(ctx):
                         ser_want.append(Base._ast_serialize(sub.op, sub.args, sub.annotations, sub.length).hex())
             elif other is not sub:
                 ctx.violation("C06/identity/two-objects-one-structure", "two live objects for %r" % (sub,), {"tree": tree, "node": repr(sub)})
+    # ---- (b1) leaf constructors: what comes back holds exactly the value asked for (they have caches of their own in front
+    # of the table), and values that differ — by one unit in the last place, by the sign of zero, by width — stay apart
+    def bits64(v):
+        return struct.unpack("<Q", struct.pack("<d", v))[0]
+    def bits32(v):
+        return struct.unpack("<I", struct.pack("<f", v))[0]
+    nleaf = 0
+    fl = [0.0, -0.0, 0.1, 0.3, 0.1 + 0.2, 1.0, 1e300, 5e-324, 2.2250738585072014e-308, 1.7976931348623157e308, float("inf"), float("-inf"), 1 / 3, 2 / 3, 1e16, 1e16 + 2]
+    for rep in range(ctx.pick(300, 3000)):
+        v = rng.choice(fl) if rng.random() < 0.4 else struct.unpack("<d", struct.pack("<Q", rng.getrandbits(64)))[0]
+        if math.isnan(v):
+            continue
+        near = [v, math.nextafter(v, math.inf), math.nextafter(v, -math.inf), -v]
+        for srt_, nm in ((claripy.FSORT_DOUBLE, "DOUBLE"), (claripy.FSORT_FLOAT, "FLOAT")):
+            objs = []
+            for w in near:
+                if math.isnan(w):
+                    continue
+                ctx.count(); nleaf += 1
+                try:
+                    e = claripy.FPV(w, srt_)
+                except (OverflowError, claripy.errors.ClaripyError) as ex:
+                    ctx.violation("C06/FPV/raises", "FPV(%r, %s) raised %r" % (w, nm, ex), {"value": repr(w), "sort": nm})
+                    continue
+                if nm == "DOUBLE":
+                    want = w
+                else:
+                    try:
+                        want = struct.unpack("f", struct.pack("f", w))[0]
+                    except OverflowError:
+                        want = math.copysign(math.inf, w)
+                if e.op != "FPV" or bits64(e.args[0]) != bits64(want) or e.args[1] != srt_ or e.length != srt_.length:
+                    ctx.violation("C06/FPV/value-differs-from-the-one-built", "FPV(%r, %s) returned an expression holding %r (bits %#x, wanted %#x)" % (
+                        w, nm, e.args[0], bits64(e.args[0]), bits64(want)), {"value": repr(w), "sort": nm, "got": repr(e.args[0])})
+                    continue
+                objs.append((bits64(want), e))
+                keep_alive.append(e)
+                k = skey(e, memo)
+                if pool.setdefault(k, e) is not e:
+                    ctx.violation("C06/identity/two-objects-one-structure", "two live objects for %r" % (e,), {"node": repr(e)})
+                elif len(ser_lines) < ctx.pick(6000, 60000) and rng.random() < 0.3:
+                    assert ser_request(e) is not None
+                    ser_lines.append(ser_request(e)); ser_want.append(Base._ast_serialize(e.op, e.args, e.annotations, e.length).hex())
+            for (b1_, e1) in objs:
+                for (b2_, e2) in objs:
+                    if (b1_ == b2_) != (e1 is e2):
+                        ctx.violation("C06/FPV/identity-differs-from-value-equality", "%r (bits %#x) and %r (bits %#x): same object = %s" % (
+                            e1, b1_, e2, b2_, e1 is e2), {"a": repr(e1.args[0]), "b": repr(e2.args[0]), "sort": nm})
+    sizes = [1, 7, 8, 63, 64, 65, 255, 256, 4096, 65535, 65536, 65537, 1 << 17, (1 << 17) + 8, 1 << 20]
+    for rep in range(ctx.pick(300, 3000)):
+        size = rng.choice(sizes) if rng.random() < 0.7 else rng.randrange(1, 300)
+        v = rng.choice([0, 1, 2, 255, (1 << size) - 1, 1 << (size - 1), rng.getrandbits(min(size, 200)), -1, -rng.getrandbits(8), (1 << size) + 5, size, 65536 + size])
+        ctx.count(); nleaf += 1
+        e = claripy.BVV(v, size)
+        want = v % (1 << size)
+        if e.op != "BVV" or e.args != (want, size) or e.length != size:
+            ctx.violation("C06/BVV/value-differs-from-the-one-built", "BVV(%#x, %d) returned BVV(%#x, %r) of length %r" % (
+                v if size < 300 else v % (1 << 64), size, e.args[0] % (1 << 64), e.args[1], e.length), {"value": hex(v), "size": size})
+            continue
+        keep_alive.append(e)
+        k = skey(e, memo)
+        if pool.setdefault(k, e) is not e:
+            ctx.violation("C06/identity/two-objects-one-structure", "two live objects for BVV(%d bits)" % size, {"value": hex(v), "size": size})
+    for rep in range(ctx.pick(100, 1000)):
+        sv = "".join(rng.choice(["a", "b", "\\", "<", ">", " ", "é", "中", "\x00", "0", "\n"]) for _ in range(rng.randrange(0, 5)))
+        ctx.count(); nleaf += 1
+        e = claripy.StringV(sv)
+        if e.op != "StringV" or e.args[0] != sv:
+            ctx.violation("C06/StringV/value-differs-from-the-one-built", "StringV(%r) returned %r" % (sv, e.args), {"value": sv})
+            continue
+        keep_alive.append(e)
+        if pool.setdefault(skey(e, memo), e) is not e:
+            ctx.violation("C06/identity/two-objects-one-structure", "two live objects for %r" % (e,), {"node": repr(e)})
     # ---- (b2) nodes carrying several annotations, attached in different orders and in different ways
     apool = anno_pool()
     live = [z for z in keep_alive if isinstance(z, claripy.ast.BV | claripy.ast.Bool)] or [claripy.BVS("x", 32, explicit_name=True)]
@@ -266,7 +347,7 @@ def run(ctx):
             ctx.tie_broken("corr:_ast_serialize", "%s: model %s real %s" % (l[:300], o[:200], w[:200])); break
         agree += 1
     ctx.cov["traces_validated_against_impl"] = agree
-    ctx.cov["input_distribution"] = {"integers": len(ints), "nodes_serialised": len(ser_lines), "distinct_structures": len(pool), "multi_annotation_bases": nperm, "cross_process_items": ncross, "templates": dict(dist)}
+    ctx.cov["input_distribution"] = {"integers": len(ints), "nodes_serialised": len(ser_lines), "distinct_structures": len(pool), "multi_annotation_bases": nperm, "leaf_constructor_calls": nleaf, "cross_process_items": ncross, "templates": dict(dist)}
     if ser_lines:
         ctx.sample({"request": ser_lines[-1][:200], "bytes": ser_want[-1][:120]})
     del keep_alive
